@@ -553,6 +553,11 @@ void DNS::update_records(uint32_t& section_start,
             if (contains_dname(type)) {
                 update_dname(ptr, threshold, offset);
             }
+            else if (type == SOA) {
+                // SOA records start with two domain names: MNAME and RNAME
+                uint8_t* rname_ptr = update_dname(ptr, threshold, offset);
+                update_dname(rname_ptr, threshold, offset);
+            }
             ptr += size;
         }
     }
